@@ -422,6 +422,9 @@ func (rc *Race) loop(endCrash bool) {
 		rc.finishClean()
 	}
 	r.Nontrivial = rc.overlaps >= 2
+	if w.lockYields > 0 {
+		r.Add("probe_parked_before_lock", int64(w.lockYields))
+	}
 }
 
 // makeOp draws the parameters of a new call under the threading discipline.
@@ -743,6 +746,13 @@ func (rc *Race) finishClean() {
 	// one quiescent read of everything
 	snap := &rop{role: -1, in: Input{Kind: OpSnapshot}}
 	rc.run(rc.clients[0], snap)
+	for guard := 0; rc.clients[0].parked; guard++ {
+		// the read itself passes scheduling points (before each lock)
+		if guard > 10000 {
+			r.Harness("the quiescent snapshot does not finish")
+		}
+		rc.run(rc.clients[0], nil)
+	}
 	rc.checkLinearizable()
 
 	// the database holds exactly what the completed calls persisted
